@@ -1,0 +1,11 @@
+//go:build verif
+
+package sbi
+
+import "github.com/gin-gonic/gin"
+
+// NewRouterForVerif exposes newRouter to the verification harness (build tag
+// "verif" only): the harness drives the real gin engine through httptest.
+func NewRouterForVerif(chf ServerChf) *gin.Engine {
+	return newRouter(&Server{ServerChf: chf})
+}
